@@ -423,7 +423,10 @@ def _some(rng, ids, lo=1, hi=3):
     ids = list(ids)
     if not ids:
         return []
-    return [int(i) for i in rng.sample(ids, min(len(ids), rng.randint(lo, hi)))]
+    out = [int(i) for i in rng.sample(ids, min(len(ids), rng.randint(lo, hi)))]
+    if rng.random() < 0.08:               # a label listed twice
+        out.append(out[0])
+    return out
 
 
 def _lookup(rng, ids, others, partial=True):
@@ -507,7 +510,13 @@ def gen_op(rng, net, allow=None, n_nets2=0):
         if len(buses) < 3:
             return gen_op(rng, net, allow, n_nets2)
         bs = rng.sample(buses, rng.randint(2, 3))
-        return [o, bs[0], bs[1:], rng.random() < 0.85, rng.random() < 0.8]
+        b2 = bs[1:]
+        if rng.random() < 0.3:            # the target bus may be listed among the buses to fuse (documented: it is ignored)
+            b2 = b2 + [bs[0]]
+            rng.shuffle(b2)
+        if rng.random() < 0.1:
+            b2 = b2 + [b2[0]]
+        return [o, bs[0], b2, rng.random() < 0.85, rng.random() < 0.8]
     if o == "reindex_buses":
         lk = _lookup(rng, buses, [])
         return [o, lk]
